@@ -97,7 +97,7 @@ def gen_case(rng, i):
     if mode == "constant":
         size = int(numpy.prod(sb, dtype=int))
         b = {"names": [0], "shape": list(sb), "dtype": "float64", "kind": "float", "as": gen.choice(rng, ["poly", "ndarray", "scalar"]) if not sb else gen.choice(rng, ["poly", "ndarray"]),
-             "terms": [[[0], [coef_json(gen.choice(rng, [Fraction(1), Fraction(-2), Fraction(1, 2), Fraction(4)])) for _ in range(size)]]]}
+             "terms": [[[0], [coef_json(gen.choice(rng, [Fraction(1), Fraction(-2), Fraction(1, 2), Fraction(4), Fraction(0)] if size > 1 else [Fraction(1), Fraction(-2), Fraction(1, 2), Fraction(4)])) for _ in range(size)]]]}
     a = gen_poly_struct(rng, names, sa, int(rng.integers(1, 5)), 3)
     c = {"id": i, "kind": "c05", "mode": mode, "a": a, "b": b}
     if mode == "exact":
@@ -213,6 +213,8 @@ def check_operators(ctx, rng, n):
         a = gen.materialize(gen_poly_struct(rng, [0, 1], (), 3, 3))
         b = gen.materialize(gen_poly_struct(rng, [0, 1], (), 2, 1, lead_ok=True))
         num = gen.choice(rng, [4.0, numpy.array(6.0), numpy.array([2.0, 8.0]), [2.0, 4.0], 3])
+        arr_div = gen.choice(rng, [numpy.array([2.0, 0.0, 4.0]), numpy.array([[1.5], [0.0]]), numpy.array([0.0, 0.0]), numpy.array([2.0, -4.0]), [0.5, 0.0]])
+        A = gen.materialize(gen_poly_struct(rng, [0, 1], gen.choice(rng, [(), (1,)]), 3, 2))
         ctx.evaluations += 1
         try:
             qd, rd = numpoly.poly_divmod(a, b)
@@ -222,7 +224,11 @@ def check_operators(ctx, rng, n):
                      ("reflected /", num / b, numpoly.poly_divide(num, b)), ("reflected %", num % b, numpoly.poly_remainder(num, b)),
                      ("reflected divmod[0]", divmod(num, b)[0], numpoly.poly_divmod(num, b)[0]),
                      ("reflected divmod[1]", divmod(num, b)[1], numpoly.poly_divmod(num, b)[1]),
-                     ("poly / number", a / 2.0, numpoly.poly_divide(a, 2.0))]
+                     ("poly / number", a / 2.0, numpoly.poly_divide(a, 2.0)),
+                     ("poly % numeric array", A % arr_div, numpoly.poly_remainder(A, arr_div)),
+                     ("poly / numeric array", A / arr_div, numpoly.poly_divide(A, arr_div)),
+                     ("divmod(poly, numeric array)[1]", divmod(A, arr_div)[1], numpoly.poly_divmod(A, arr_div)[1]),
+                     ("identity with numeric array divisor", (A / arr_div) * numpy.asarray(arr_div) + A % arr_div, A + numpy.zeros(numpy.shape(arr_div)))]
         except Exception as err:  # noqa: BLE001
             ctx.fail({"kind": "operators", "a": str(a), "b": str(b)}, f"operator spelling raised {type(err).__name__}: {str(err)[:120]}", ["operators", "raises"])
             continue
